@@ -420,16 +420,16 @@ def all_cells(table):
     return [(f, rg) for f in sorted(table) for rg in table[f]]
 
 
-def n_for(rg, tier):
+def n_for(rg, tier, scale=1.0):
     if rg.n is not None:
         return rg.n[0 if tier == 'quick' else 1]
-    return N_PER_CELL[rg.cost][0 if tier == 'quick' else 1]
+    return max(1, int(N_PER_CELL[rg.cost][0 if tier == 'quick' else 1] * scale))
 
 
-def assign(table, tier, nshards):
+def assign(table, tier, nshards, scale=1.0):
     """deterministic cost-balanced distribution of the cells over the shards (longest-processing-time greedy)"""
     cells = all_cells(table)
-    est = [(n_for(rg, tier) * EST_COST[rg.cost], i) for i, (f, rg) in enumerate(cells)]
+    est = [(n_for(rg, tier, scale) * EST_COST[rg.cost], i) for i, (f, rg) in enumerate(cells)]
     est.sort(key=lambda t: (-t[0], t[1]))
     load = [0.0] * nshards
     out = [[] for _ in range(nshards)]
@@ -484,7 +484,8 @@ def run(prop, table, shard, rec, tol_exp=8, tmax=20.0):
     tree_mp = mpmath.mp
     tier = shard.get('tier', 'quick')
     nsh = shard.get('nshards', 16)
-    mine = assign(table, tier, nsh)[shard['shard'] % nsh]
+    scale = shard.get('scale', 1.0)
+    mine = assign(table, tier, nsh, scale)[shard['shard'] % nsh]
     r = G.rng(prop, shard['seed'], shard['shard'])
     t_end = time.process_time() + shard.get('budget_s', 1e9)
     counts = collections.Counter()
@@ -494,7 +495,7 @@ def run(prop, table, shard, rec, tol_exp=8, tmax=20.0):
         if not hasattr(tree_mp, fname) and not rg.fn:
             rec.note('absent', fname)
             continue
-        todo.append([fname, rg, n_for(rg, tier), 0])
+        todo.append([fname, rg, n_for(rg, tier, scale), 0])
     rnd = 0
     stopped = False
     while todo and not stopped:
